@@ -98,3 +98,25 @@ Theorem C14_the_code_restores_the_hooks :
   s2 = s0 /\ t2 = t0 /\ i2 = true /\ h2 = false /\ (no_trace = true -> s1 = s0 /\ t1 = t0).
 Proof. exact code_hooks_restored. Qed.
 Print Assumptions C14_the_code_restores_the_hooks.
+
+(* a start that FAILS after the hooks were installed (the channel or the poll raises) leaves the hooks as they were - no shutdown
+   is needed, and none could help: the agent is not marked started *)
+Theorem C14_failed_start_leaves_no_hooks :
+  forall c l, started l = false ->
+  let l' := do_failed_start true c l in
+  sys_hook l' = sys_hook l /\ thr_hook l' = thr_hook l /\ started l' = false /\ hooks_installed l' = false /\ inert l' = true.
+Proof. exact failed_start_leaves_no_hooks. Qed.
+Print Assumptions C14_failed_start_leaves_no_hooks.
+
+Theorem C14_failed_start_then_a_normal_cycle_restores :
+  forall c l f, started l = false ->
+  let l' := do_shutdown true c f (do_start c (do_failed_start true c l)) in
+  sys_hook l' = sys_hook l /\ thr_hook l' = thr_hook l /\ started l' = false.
+Proof. exact failed_start_then_cycle. Qed.
+Print Assumptions C14_failed_start_then_a_normal_cycle_restores.
+
+(* the code before its repair (no clean-up): after a failed start and a shutdown the agent's hook is still installed *)
+Theorem C14_failed_start_without_cleanup_refuted :
+  sys_hook failed_start_witness = AGENT /\ thr_hook failed_start_witness = AGENT.
+Proof. exact failed_start_without_cleanup_refuted. Qed.
+Print Assumptions C14_failed_start_without_cleanup_refuted.
